@@ -3,7 +3,9 @@ package main
 import (
 	"fmt"
 	"math/rand"
+	"reflect"
 	"regexp"
+	"strconv"
 	"strings"
 	_ "time/tzdata" // time zones must not depend on the machine
 
@@ -145,6 +147,66 @@ func propAccepts(parse func(p *influxql.Parser) error) func(args []string) strin
 	}
 }
 
+var countClause = regexp.MustCompile(`(?i)\b(limit|offset|slimit|soffset)[ \t\r\n]+([0-9]+)\b`)
+
+// propValuesAsWritten (C01, "each value in the slot it was written for"): for statements whose text
+// is free of quotes, comments, parentheses and placeholders, every LIMIT / OFFSET / SLIMIT / SOFFSET
+// count that fits in an int64 appears in the AST field of that name with exactly the written value,
+// and the fields of the clauses that are not written are zero.
+func propValuesAsWritten(args []string) string {
+	text, params, ok := decStmtArgs(args)
+	if !ok || len(params) > 0 || strings.ContainsAny(text, "'\"()$;") || strings.Contains(text, "--") || strings.Contains(text, "/*") {
+		return ""
+	}
+	if len(args) < 4 || args[3] != "valid" {
+		return ""
+	}
+	ps := newStmtParser(text, nil)
+	stmt, err := ps.ParseStatement()
+	if err != nil {
+		return ""
+	}
+	if q, err := ps.ParseQuery(); err != nil || len(q.Statements) != 0 {
+		return "" // ParseStatement does not look at what follows; only whole-text statements are judged
+	}
+	written := map[string]string{}
+	for _, m := range countClause.FindAllStringSubmatch(text, -1) {
+		k := strings.ToLower(m[1])
+		if _, dup := written[k]; dup {
+			return ""
+		}
+		written[k] = m[2]
+	}
+	v := reflect.ValueOf(stmt)
+	if v.Kind() == reflect.Ptr {
+		v = v.Elem()
+	}
+	if v.Kind() != reflect.Struct {
+		return ""
+	}
+	for key, field := range map[string]string{"limit": "Limit", "offset": "Offset", "slimit": "SLimit", "soffset": "SOffset"} {
+		f := v.FieldByName(field)
+		if !f.IsValid() || f.Kind() != reflect.Int {
+			continue
+		}
+		w, has := written[key]
+		if !has {
+			if f.Int() != 0 {
+				return fmt.Sprintf("%q has no %s clause but the AST field %s is %d", text, strings.ToUpper(key), field, f.Int())
+			}
+			continue
+		}
+		n, perr := strconv.ParseInt(w, 10, 64)
+		if perr != nil {
+			continue // beyond int64: the parser clamps, out of the property's range
+		}
+		if f.Int() != n {
+			return fmt.Sprintf("%q writes %s %s but the AST field %s is %d", text, strings.ToUpper(key), w, field, f.Int())
+		}
+	}
+	return ""
+}
+
 var spaceCommaAfterRegex = regexp.MustCompile(`/[ \t\r\n]+,`)
 
 // knownAccepts classifies a rejected grammar-conforming text by repair: the text is accepted once
@@ -266,7 +328,15 @@ func init() {
 	}
 	parseQ := func(p *influxql.Parser) error { _, err := p.ParseQuery(); return err }
 	register(&stream{name: "parse.stmt", gen: genParseStmt, impl: implParseStmt, known: knownAccepts(parseS),
-		prop:  propAccepts(parseS),
+		prop: func(args []string) string {
+			if v := propAccepts(parseS)(args); v != "" && v != "skip" {
+				return v
+			}
+			if v := propValuesAsWritten(args); v != "" {
+				return v
+			}
+			return propAccepts(parseS)(args)
+		},
 		class: stmtClass, nontrivial: stmtNontrivial})
 	register(&stream{name: "parse.query", gen: genParseQuery, impl: implParseQuery, known: knownAccepts(parseQ),
 		prop:  propAccepts(parseQ),
